@@ -29,6 +29,8 @@ def instances(tier):
         I("l1_encfail_t", trig="size", append=False, count=1, limit=1, sizes=(1, 2), pre="PreB", maxrec=4, encfail=2),
         # 400-byte units: two and a half of them fit into the BufWriter, the third is written through
         I("l3_encfail_buf", trig="size", count=2, limit=3, sizes=(1, 3), pre="PreNone", maxrec=4, encfail=2, buf=2),
+        # 600-byte units: a record of two units goes to the file in one write call, and the file may take only part of it
+        I("l3_oswrite", trig="size", count=2, limit=3, sizes=(1, 2, 3), pre="PreNone", maxrec=4, encfail=1, buf=1, restart=1, oswrite=True),
         I("big", trig="size", count=2, limit=3, sizes=(1, 2, 4), pre="PreB", maxrec=6, restart=2, hist=False),
         I("big_t", trig="size", count=2, append=False, limit=2, sizes=(1, 2, 3), pre="PreB", maxrec=6, restart=2, hist=False),
     ]
